@@ -416,12 +416,20 @@ func (cw *c12Worker) opBuild() {
 	cw.w.count("op/build", 1)
 }
 
+var errC12Stop = fmt.Errorf("callback stops the read")
+
 func (cw *c12Worker) opReadFile() {
 	it := cw.w.items[cw.rng.Intn(len(cw.w.items))]
 	cname := codecNames[cw.rng.Intn(3)]
 	rt := it.g.RType()
 	var got []reflect.Value
 	var banks []*avro.ResourceBank
+	// one read in four is stopped early by the callback's own error, after the
+	// callback closed (or kept) the bank it was given for that record
+	stopAt, closeOwn := -1, cw.rng.Intn(2) == 0
+	if len(it.wants) > 0 && cw.rng.Intn(4) == 0 {
+		stopAt = cw.rng.Intn(len(it.wants))
+	}
 	err := func() (err error) {
 		defer func() {
 			if p := recover(); p != nil {
@@ -432,10 +440,31 @@ func (cw *c12Worker) opReadFile() {
 			v := reflect.New(rt).Elem()
 			v.Set(reflect.NewAt(rt, val).Elem())
 			got = append(got, v)
+			if len(got)-1 == stopAt {
+				if closeOwn {
+					rb.Close()
+				} else {
+					banks = append(banks, rb)
+				}
+				return errC12Stop
+			}
 			banks = append(banks, rb)
 			return nil
 		})
 	}()
+	if stopAt >= 0 {
+		switch {
+		case isPanicErr(err):
+			cw.fail("concurrent-panic", fmt.Sprintf("ReadFile(%s, %s) stopped by its callback: %v", it.name, cname, err))
+		case err != errC12Stop || len(got) != stopAt+1:
+			cw.fail("concurrent-result-differs", fmt.Sprintf("ReadFile(%s, %s) stopped by its callback at record %d returned %v after %d records", it.name, cname, stopAt, err, len(got)))
+		}
+		for _, b := range banks {
+			cw.handOff(b)
+		}
+		cw.w.count("op/readfile-stopped", 1)
+		return
+	}
 	switch {
 	case isPanicErr(err):
 		cw.fail("concurrent-panic", fmt.Sprintf("ReadFile(%s, %s): %v", it.name, cname, err))
